@@ -4,7 +4,7 @@ C15 — a minimal stack semantics of exactly the op codes miniscript emits, for 
 theorems (T3).  `Op` is the script as a list of instructions, `ser` its serialization (the inverse
 of script decoding), `opsOf` the instruction list `_fragment_script` writes (proved to serialize to
 `compile`), `exec` Bitcoin Core's `EvalScript` loop restricted to the op codes of the fragment set
-covered so far: pushes (data and numbers), OP_0, OP_1, DUP, SIZE, EQUAL(VERIFY), the hash op codes, CSV, CLTV, CHECKSIG(VERIFY), VERIFY, BOOLAND, BOOLOR, 0NOTEQUAL, IFDUP, SWAP,
+covered so far: pushes (data and numbers), OP_0, OP_1, DUP, SIZE, EQUAL(VERIFY), the hash op codes, CSV, CLTV, CHECKSIG(VERIFY), VERIFY, BOOLAND, BOOLOR, 0NOTEQUAL, IFDUP, SWAP, ADD, NUMEQUAL(VERIFY), CHECKSIGADD, CHECKMULTISIG(VERIFY),
 TOALTSTACK, FROMALTSTACK, IF, NOTIF, ELSE, ENDIF.  Any other op code is `none` ("not modelled"), never a wrong answer.
 The full Core-shaped evaluator is C08's.
 -/
@@ -108,6 +108,46 @@ structure EvalEnv where
 /-- every enclosing OP_IF/OP_NOTIF branch is the taken one (Core's `fExec`). -/
 def executing (conds : List Bool) : Bool := conds.all id
 
+/-- a script number operand: at most four bytes, minimally encoded (MINIMALDATA). -/
+def numVal (v : Bytes) : Option Int :=
+  if v.length ≤ 4 ∧ Btc.Script.encodeNumRaw (Btc.Script.decodeNum v) = v then some (Btc.Script.decodeNum v)
+  else none
+
+/-- OP_CHECKMULTISIG's walk: signatures and keys from the top of the stack down (last first), each
+    signature tried against the keys left. -/
+def matchSigs (E : EvalEnv) : List Bytes → List Key → Bool
+  | [], _ => true
+  | _ :: _, [] => false
+  | sg :: sgs, k :: ks => if E.sigOK k sg then matchSigs E sgs ks else matchSigs E (sg :: sgs) ks
+
+/-- OP_CHECKMULTISIG(VERIFY) on a stack (top first): n, n keys, m, m signatures, the dummy (empty:
+    NULLDUMMY); a failed check with a non-empty signature fails the script (NULLFAIL). -/
+def checkMultisig (E : EvalEnv) (verify : Bool) (s : St) : Option St :=
+  match s.stack with
+  | nk :: rest =>
+    match numVal nk with
+    | some n =>
+      if n < 0 ∨ n > 20 ∨ rest.length < n.toNat then none else
+      let keys := rest.take n.toNat
+      match rest.drop n.toNat with
+      | nm :: rest2 =>
+        match numVal nm with
+        | some m =>
+          if m < 0 ∨ m > n ∨ rest2.length < m.toNat then none else
+          let sigs := rest2.take m.toNat
+          match rest2.drop m.toNat with
+          | dummy :: rest3 =>
+            if dummy ≠ [] then none else
+            if matchSigs E sigs keys then
+              some { s with stack := if verify then rest3 else boolBytes true :: rest3 }
+            else if sigs.all (·.isEmpty) && !verify then some { s with stack := boolBytes false :: rest3 }
+            else none
+          | [] => none
+        | none => none
+      | [] => none
+    | none => none
+  | [] => none
+
 /-- an executed instruction other than IF/ELSE/ENDIF. `E.sigOK key sig` is the signature check of
     the spend at hand. -/
 def stepExec (E : EvalEnv) (o : Op) (s : St) : Option St :=
@@ -147,6 +187,27 @@ def stepExec (E : EvalEnv) (o : Op) (s : St) : Option St :=
   | .equal, b :: a :: st => some { s with stack := boolBytes (a == b) :: st }
   | .equalverify, b :: a :: st => if a = b then some { s with stack := st } else none
   | .size, v :: st => some { s with stack := encodeNum v.length :: v :: st }
+  | .add, b :: a :: st =>
+    match numVal a, numVal b with
+    | some x, some y => some { s with stack := Btc.Script.encodeNumRaw (x + y) :: st }
+    | _, _ => none
+  | .numequal, b :: a :: st =>
+    match numVal a, numVal b with
+    | some x, some y => some { s with stack := boolBytes (x == y) :: st }
+    | _, _ => none
+  | .numequalverify, b :: a :: st =>
+    match numVal a, numVal b with
+    | some x, some y => if x = y then some { s with stack := st } else none
+    | _, _ => none
+  | .checksigadd, k :: nv :: sg :: st =>
+    match numVal nv with
+    | some x =>
+      if sg = [] then some { s with stack := Btc.Script.encodeNumRaw x :: st }
+      else if E.sigOK k sg then some { s with stack := Btc.Script.encodeNumRaw (x + 1) :: st }
+      else none
+    | none => none
+  | .checkmultisig, _ => checkMultisig E false s
+  | .checkmultisigverify, _ => checkMultisig E true s
   | .csv, v :: _ => if E.csvOK v then some s else none
   | .cltv, v :: _ => if E.cltvOK v then some s else none
   | _, _ => none
@@ -186,12 +247,29 @@ def Op.nonPush : Op → Bool
 
 def countNP (ops : List Op) : Nat := (ops.filter Op.nonPush).length
 
+/-- the keys of every OP_CHECKMULTISIG of the script (the count pushed just before it): what an
+    execution of ALL of them adds to the op count (an upper bound when one sits in a branch not
+    taken). -/
+def msKeys : List Op → Nat
+  | .pushnum n :: .checkmultisig :: rest => n + msKeys rest
+  | .pushnum n :: .checkmultisigverify :: rest => n + msKeys rest
+  | _ :: rest => msKeys rest
+  | [] => 0
+
 /-- the limits the interpreter puts around an execution, which `exec` itself does not carry: 201
     counted op codes and 10 000 bytes of script (P2WSH; the count is exact for scripts without
     OP_CHECKMULTISIG, whose keys are counted on top), 520 bytes per initial stack element, 1000
     initial elements.  NOT modelled: the 1000-element bound on the stack DURING execution. -/
+def Op.isCms : Op → Bool
+  | .checkmultisig | .checkmultisigverify => true
+  | _ => false
+
+def hasCms (ops : List Op) : Bool := ops.any Op.isCms
+
 def withinEngineLimits (ctx : Ctx) (ops : List Op) (w : List Bytes) : Bool :=
-  (ctx == .tapscript || (decide (countNP ops ≤ MAX_OPS_PER_SCRIPT) && decide ((ser ops).length ≤ 10000))) &&
+  (ctx == .tapscript ||
+    (decide (countNP ops + (if hasCms ops then msKeys ops else 0) ≤ MAX_OPS_PER_SCRIPT) &&
+      decide ((ser ops).length ≤ 10000))) &&
   w.all (fun e => decide (e.length ≤ 520)) && decide (w.length ≤ MAX_STACK_SIZE)
 
 /-- the verdict on a witness program: within the limits, the script runs to its end with every
